@@ -150,12 +150,38 @@ def derived_state(facts, res, R="C13.5.derived-state", cls="TbfTree", structural
             if x.get("k") in ("CallExpr", "CXXMemberCallExpr") and (tbf.callee_name(x) or "").startswith(("applyToAll", "getNbParticleGroups", "getNbCellGroups", "getCellGroups", "getParticleGroups", "getLeafGroups")):
                 return True
         return False
+    own = {id(m): writes_to(m) for m in methods}
+    byname = {}
+    for m in methods:
+        byname.setdefault(m["name"], []).append(m)
+
+    def writes_closure(m, depth=0, seen=None):
+        """writes of m and of the member functions of the same object it calls (a refresh helper called by rebuild() resets what it fills)"""
+        seen = seen if seen is not None else set()
+        if id(m) in seen or depth > 4:
+            return {}
+        seen.add(id(m))
+        out = {k: list(v) for k, v in own[id(m)].items()}
+        for x in walk(tbf.body(m)):
+            if x.get("k") in ("CallExpr", "CXXMemberCallExpr") and tbf.callee_name(x) in byname:
+                b_ = tbf.call_base(x)
+                if b_ is None or strip(b_).get("k") == "CXXThisExpr":
+                    for g_ in byname[tbf.callee_name(x)]:
+                        if g_["kind"] not in ("CXXConstructor", "CXXDestructor") and len(g_["params"]) == len(tbf.call_args(x)):
+                            for k_, v_ in writes_closure(g_, depth + 1, seen).items():
+                                out.setdefault(k_, []).extend(v_)
+        return out
     derived = {}
     mutators = []
     for m in methods:
-        w = writes_to(m)
+        w = own[id(m)]
         if any(k in structural for k in w) and m["kind"] not in ("CXXConstructor", "CXXDestructor"):
-            mutators.append((m, w))
+            mutators.append((m, writes_closure(m)))
+            continue
+        if False:
+            pass
+    for m in methods:
+        w = own[id(m)]
         if m["kind"] in ("CXXConstructor", "CXXDestructor"):
             continue
         for fname, nodes in w.items():
@@ -172,6 +198,7 @@ def derived_state(facts, res, R="C13.5.derived-state", cls="TbfTree", structural
                 res.violation(R, tbf.rel(facts.path_of(g)), g["qname"], "stale:%s:%s" % (fname, g["name"]), g["l"][1],
                               "%s() refills the group containers but does not reset '%s', which %s() fills from the groups (%s) and keeps: after a rebuild '%s' still describes the layout "
                               "before it, and whatever reads it returns the values of other particles / cells" % (g["name"], fname, m0["name"], facts.loc(node), fname))
+    derived_state.last = set(derived)
     return len(derived)
 
 
@@ -219,7 +246,12 @@ def run(res, tier):
         raise AnalysisBroken("rebuild: cannot identify the gathered data array")
     dorig = fm.origin({"k": "DeclRefExpr", "did": datavars[0]["did"], "dk": "Var", "name": datavars[0]["name"], "l": datavars[0]["l"]})
     rf = construction_facts(facts, rebuild, [dorig])
-    ignore = lambda k: (".clear()" in k and ("cellBlocks.clear" in k or "particleGroups.clear" in k)) or k.startswith("call ctor(") or "std::size(POS)" in k or "size(POS" in k
+    # members the tree fills FROM its groups (directories, tables) are not part of how the groups are built: whether rebuild() keeps them
+    # current is rule C13.5's business (a one-time sizing in the constructor need not be repeated)
+    derived_state(facts, tbf.Result("C13"))
+    dm = getattr(derived_state, "last", set())
+    ignore = lambda k: (".clear()" in k and ("cellBlocks.clear" in k or "particleGroups.clear" in k)) or k.startswith("call ctor(") or "std::size(POS)" in k or "size(POS" in k \
+        or any(re.match(r"^(call|assign) this\.%s\b" % re.escape(d_), k) for d_ in dm)
     ck = set(k for k in cf if not ignore(k))
     rk = set(k for k in rf if not ignore(k))
     res.instance("C13.3.same-construction", "ctor vs rebuild", facts.loc(rebuild), "%d construction facts in the constructor, %d in rebuild" % (len(ck), len(rk)))
